@@ -171,6 +171,21 @@ def check_setting(part, row, table_by_number):
                           % (sk, found.international_tables_number, found.choice), case)
         except Exception as e:
             part.fail("lookup-reduced-raise:%s" % sk, "LATT+SYMM round trip of %s raised %s" % (sk, type(e).__name__), case)
+        # the same reduced description in other orders (the description is a set: identity written last, in the middle, list reversed)
+        rl = list(red)
+        ident = [x for x in rl if x.is_identity()]
+        rest = [x for x in rl if not x.is_identity()]
+        orders = {"reversed": rl[::-1], "identity-last": rest + ident, "identity-middle": rest[: len(rest) // 2] + ident + rest[len(rest) // 2:]}
+        for oname, lst in orders.items():
+            try:
+                found = SpaceGroup.from_symmetry_operations(list(lst), expand_latt=latt)
+                part.trace()
+                fcodes = sorted(int(x.integer_code) for x in found.symmetry_operations)
+                if found.international_tables_number != n or fcodes != sorted(codes):
+                    part.fail("lookup-reduced-order:%s:%s" % (oname, sk), "LATT+SYMM description of %s with the operations written %s is identified as %d:%s"
+                              % (sk, oname, found.international_tables_number, found.choice), case)
+            except Exception as e:
+                part.fail("lookup-reduced-order-raise:%s:%s" % (oname, sk), "LATT+SYMM description of %s with the operations written %s raised %s" % (sk, oname, type(e).__name__), case)
         # the reduced list without identity, as the SHELX writer emits it, through string form
         try:
             strs = [str(s) for s in red if not s.is_identity()]
